@@ -2,14 +2,15 @@
 import json
 
 from ..common import Check, coq_eval, coq_codes, harness
-from ..translate import gen_dialect
+from ..translate import gen_dialect, gen_dialect_reads
 from ..programs import POOL
 
 TRUSTED = [
     "Coq 8.16.1 kernel (coqc, vm_compute); no axioms: every theorem is 'Closed under the global context'",
     "translator vplib/translate/gen_dialect.py (regex scanners over sql/dialect.rs, lib.rs, sql/mod.rs, sql/pq/gen_query.rs, parser/stmt.rs; fail closed)",
+    "translator vplib/translate/gen_dialect_reads.py: the inventory of every occurrence, in the non-test Rust source of both crates, of a `dialect: Option<Dialect>` parameter / `options.target`, of `.other` / a `QueryDef {..}` literal, of `.dialect` / `.dialect_enum` / `Context {..}` / `Context::new`, of `Target::from_str` / `Dialect::from_str`, each classified by the normalised text of its statement (fail closed; an unrecognised use is class OTHER and breaks c18_reads_inventory_ok). Its completeness -- that the compiler has no other way to reach the option or the header (e.g. through serde, a macro, unsafe code) -- is the hypotheses FE / BK of the c18_rd_* theorems, and is what the full matrix and the observed-dialect stream check on the implementation",
     "correspondence harness (harness/src/main.rs: prqlc::compile, prql_to_pl+pl_to_rq) and python comparison",
-    "modelled, not verified: the SQL back end is an abstract function `gen : dialect -> rq -> result` in the theorems; that the real back end depends on the header only through the selected dialect is what the correspondence matrix checks",
+    "modelled, not verified: front end and back end are arbitrary read-programs (Model/SelectReads.v) whose reads happen at inventoried sites; what each site does with the answer is not modelled (it does not need to be)",
     "strum's EnumString/Display derive (exact, lowercase names)",
 ]
 
@@ -19,7 +20,21 @@ HEADERS_UNKNOWN = ["sql.SQLite", "sql.Generic", "sqlite", "sql.foo", "sql.sqlite
 def run():
     ck = Check("C18", level="proof")
     info = gen_dialect.generate()
+    rinfo = gen_dialect_reads.generate()
     pr = ck.prove()
+    if "error" in rinfo:
+        ck.coverage["reads_translator_error"] = rinfo["error"]
+    else:
+        inv = {}
+        bad = []
+        for kind, rel, fn, cls, what in rinfo["entries"]:
+            inv.setdefault(kind, {}).setdefault(str(cls), 0)
+            inv[kind][str(cls)] += 1
+            if cls in (8, 9) and not rel.startswith("prqlc/prqlc/src/cli/"):
+                bad.append({"kind": kind, "file": rel, "function": fn, "what": what})
+        ck.coverage["read_sites"] = {"by_kind_and_class": inv, "total": len(rinfo["entries"]), "unclassified_uses": bad,
+                                     "chosen_dialect_read_sites": sorted({"%s::%s" % (rel, fn) for kind, rel, fn, cls, _ in rinfo["entries"] if kind == "chosen" and cls == 0})}
+        ck.count("read-site-inventory", "inventory", nontrivial=True)
     names = info.get("names") if "error" not in info else None
     if names is None:
         # translator failed closed: use the implementation's own list for the search
@@ -138,6 +153,51 @@ def run():
                     ck.violation("option %r + header %r: output differs from dialect %s alone" % (opts[o], headers[hi], names[want]), case)
             if len(ck.coverage["samples"]) < 6 and (pi + hi + o) % 97 == 0:
                 ck.sample({"case": case, "model_dialect": None if want is None else names[want], "impl": got[0]})
+    # 4. the chosen dialect observed at its read sites: the `verif:select_pipeline_in` hook logs ctx.dialect_enum inside
+    #    translate_select_pipeline; on every (option, header) pair it must be the model's dialect (a few programs: a plain one, a
+    #    recursive CTE, a nested pipeline, an s-string relation)
+    variants = info.get("variants") if "error" not in info else None
+    obs_progs = [i for i in (0, 33, 27, 37, 10) if i < len(progs)] if variants else []
+    if obs_progs:
+        reqs, meta = [], []
+        for pi in obs_progs:
+            for hi, h in enumerate(headers):
+                st = stored[(pi, hi)]
+                if st[0] != "ok":
+                    continue
+                src = progs[pi] if h is None else "prql target:%s\n%s" % (h, progs[pi])
+                for o in range(len(opts)):
+                    reqs.append({"src": src, "target": opts[o], "format": False, "want": [], "msg_prefix": "verif:select_pipeline_in"})
+                    meta.append((pi, hi, o, st[1]))
+        ans = harness("log", reqs)
+        hook_seen = 0
+        for (pi, hi, o, hs), a in zip(meta, ans):
+            want = model.get((o, hs), "missing")
+            if want == "missing":
+                continue
+            seen = []
+            for e in a.get("entries", []):
+                t = e.get("Message", "")
+                if t.startswith("verif:select_pipeline_in "):
+                    try:
+                        seen.append(json.loads(t[len("verif:select_pipeline_in "):]).get("dialect"))
+                    except ValueError:
+                        seen.append("<unparsable>")
+            ck.count("observed-chosen", json.dumps([pi, hi, o]), nontrivial=bool(seen))
+            hook_seen += len(seen)
+            case = {"program": progs[pi], "header": headers[hi], "option": opts[o], "observed_ctx_dialect_enum": seen}
+            if want is None:
+                if seen:
+                    case["expected"] = "no back-end run (unknown target)"
+                    ck.violation("back end ran with ctx.dialect_enum=%s although the header target %r is unknown" % (seen, headers[hi]), case)
+            else:
+                if "ok" in a and not seen:
+                    ck.violation("compile succeeded but the select_pipeline_in hook logged nothing (hook missing from this tree?)", case)
+                if any(d != variants[want] for d in seen):
+                    case["expected_dialect"] = variants[want]
+                    ck.violation("ctx.dialect_enum read by translate_select_pipeline is %s, the model's selection is %s (option %r, header %r)" % (
+                        sorted(set(seen)), variants[want], opts[o], headers[hi]), case)
+        ck.coverage["observed_chosen"] = {"programs": [progs[i] for i in obs_progs], "compiles": len(meta), "hook_lines": hook_seen}
     ck.coverage["matrix_shape"] = {"programs": len(progs), "options": len(opts), "headers": len(headers), "formats": len(extra_prog_opts)}
     ck.coverage["exhaustive"] = True
     ck.proof_broken_violation(found_input=bool(ck.violations))
